@@ -299,6 +299,45 @@ fn sections(doc: &str) -> Vec<(String, String)> {
     out
 }
 
+/// `app remote add` and `app stash add`: commands on different paths with the same name and the
+/// same description are still two levels
+fn same_named_commands(spec: &mut OptSpec) -> bool {
+    fn cmds_mut<'a>(s: &'a mut Spec, out: &mut Vec<&'a mut CmdSpec>) {
+        match s {
+            Spec::Cmd(c) => out.push(c),
+            Spec::Wrap { inner, .. } => cmds_mut(inner, out),
+            Spec::Seq(xs) | Spec::Alt(xs) | Spec::Adj(xs) => {
+                for x in xs {
+                    cmds_mut(x, out);
+                }
+            }
+            _ => {}
+        }
+    }
+    let mut top = Vec::new();
+    cmds_mut(&mut spec.root, &mut top);
+    let mut donor: Option<(Vec<String>, Option<String>, Option<String>)> = None;
+    for c in top {
+        let mut nested = Vec::new();
+        cmds_mut(&mut c.opts.root, &mut nested);
+        let n = match nested.into_iter().next() {
+            Some(n) => n,
+            None => continue,
+        };
+        match &donor {
+            None => donor = Some((n.names.clone(), n.help.clone(), n.opts.descr.clone())),
+            Some((names, help, descr)) => {
+                n.names = names.clone();
+                n.shorts.clear();
+                n.help = help.clone();
+                n.opts.descr = descr.clone();
+                return true;
+            }
+        }
+    }
+    false
+}
+
 pub fn run_case(case: &mut Case) {
     let mut rng = case.rng(0);
     let mut o = GenOpts::general();
@@ -309,6 +348,9 @@ pub fn run_case(case: &mut Case) {
     o.custom_help = true;
     let mut spec = gen_options(&mut rng, o);
     seed_texts(&mut spec, &mut rng, 0);
+    if rng.chance(1, 2) && same_named_commands(&mut spec) {
+        case.rep.count("definitions-with-same-named-commands-on-different-paths");
+    }
     let h = spec.hash64();
     case.rep.definition(h);
     case.say(&format!("definition: {}", spec.pretty()));
